@@ -13,6 +13,7 @@ import (
 	"github.com/scrapli/scrapligo/driver/options"
 	"github.com/scrapli/scrapligo/logging"
 	"github.com/scrapli/scrapligo/transport"
+	"github.com/scrapli/scrapligo/util"
 
 	"verif/internal/mon"
 )
@@ -223,6 +224,9 @@ type scriptTransport struct {
 	consCalls *atomic.Int64
 	closed    atomic.Bool
 	timedOut  atomic.Bool
+	// eof: after its last scripted read the device hangs up (io.EOF) instead of staying idle
+	eof         bool
+	eofReturned atomic.Bool
 }
 
 func (t *scriptTransport) Open(*transport.Args) error { return nil }
@@ -237,6 +241,10 @@ func (t *scriptTransport) Read(int) ([]byte, error) {
 		return nil, io.EOF
 	}
 	if i >= len(t.sc.steps) {
+		if t.eof {
+			t.eofReturned.Store(true)
+			return nil, io.EOF
+		}
 		return nil, nil // idle
 	}
 	st := t.sc.steps[i]
@@ -260,6 +268,44 @@ func (t *scriptTransport) Read(int) ([]byte, error) {
 		return t.buf[:n], nil
 	}
 	return append([]byte(nil), st.raw...), nil
+}
+
+// logSink is an io.Writer for options.WithChannelLog: a log destination that stops working (closed
+// file, full capped log, dropped network sink). Whatever the log does, the queue must get every chunk.
+type logSink struct {
+	mode     string // healthy | error | short | capped
+	failFrom int    // error/short: the first failing write (0-based)
+	capBytes int    // capped: bytes accepted in total
+	taken    int
+	writes   atomic.Int64
+	failed   atomic.Int64
+}
+
+var errLogSink = errors.New("c20: channel log sink refuses the write")
+
+func (w *logSink) Write(b []byte) (int, error) {
+	k := int(w.writes.Add(1) - 1)
+	switch w.mode {
+	case "error":
+		if k >= w.failFrom {
+			w.failed.Add(1)
+			return 0, errLogSink
+		}
+	case "short":
+		if k >= w.failFrom && len(b) > 0 {
+			w.failed.Add(1)
+			return len(b) / 2, nil
+		}
+	case "capped":
+		if w.taken+len(b) > w.capBytes {
+			n := w.capBytes - w.taken
+			w.taken = w.capBytes
+			w.failed.Add(1)
+			return n, io.ErrShortWrite
+		}
+		w.taken += len(b)
+	}
+	return len(b), nil
 }
 
 type chanOutcome struct {
@@ -307,7 +353,26 @@ func runChanSession(seed int64, d Desc) (out chanOutcome) {
 	if err != nil {
 		return chanOutcome{verdict: mon.Inconclusive, detail: "transport.NewTransport: " + err.Error(), obs: obs}
 	}
-	c, err := channel.NewChannel(l, tp, options.WithAuthBypass(), options.WithReadDelay(sc.readDelay))
+	chOpts := []util.Option{options.WithAuthBypass(), options.WithReadDelay(sc.readDelay)}
+	var sink *logSink
+	if int(mix64(uint64(seed)^0x10c)%1000) < d.LogPm {
+		// a channel log that accepts everything, or fails / takes only part of a write from some write on
+		lr := xrng{uint64(seed)*19 + 3}
+		sink = &logSink{mode: []string{"healthy", "error", "short", "capped"}[lr.next()%4], failFrom: int(lr.next() % 6), capBytes: 20 + int(lr.next()%100)}
+		chOpts = append(chOpts, options.WithChannelLog(sink))
+		obs["chan_sessions_with_channel_log"]++
+		obs["chan_sessions_channel_log_"+sink.mode]++
+	}
+	defer func() {
+		if sink != nil {
+			obs["chan_channel_log_writes"] += sink.writes.Load()
+			obs["chan_channel_log_writes_failed_or_short"] += sink.failed.Load()
+			if sink.failed.Load() > 0 && out.verdict == mon.Held {
+				out.nontriv = true
+			}
+		}
+	}()
+	c, err := channel.NewChannel(l, tp, chOpts...)
 	if err != nil {
 		return chanOutcome{verdict: mon.Inconclusive, detail: "channel.NewChannel: " + err.Error(), obs: obs}
 	}
@@ -559,6 +624,8 @@ func runChan(d Desc) mon.Result {
 		var o chanOutcome
 		if int(mix64(uint64(sseed)^0xa17)%1000) < d.AuthPm {
 			o = runAuthSession(sseed, d)
+		} else if int(mix64(uint64(sseed)^0xe0f)%1000) < d.EOFPm {
+			o = runEOFSession(sseed, d)
 		} else {
 			o = runChanSession(sseed, d)
 		}
